@@ -7,6 +7,8 @@ set -u
 out=${1:-/tmp/cov}; tgt=${COV_TARGET:-/tmp/covtgt}
 B=$(ls -d ~/.rustup/toolchains/nightly-x86_64-unknown-linux-gnu/lib/rustlib/*/bin | head -1)
 mkdir -p "$out"; rm -f "$out"/*.profraw
+# (instrumented build scripts write profiles too: keep them out of the source trees)
+export LLVM_PROFILE_FILE="$out/build-%p-%m.profraw"
 cd /verif/harness && cp /repo/Cargo.lock Cargo.lock && CARGO_NET_OFFLINE=true CARGO_TARGET_DIR=$tgt RUSTFLAGS="--cfg qvnt_verif -C instrument-coverage" cargo build --offline --quiet || exit 2
 cd /verif
 for c in ${CHECKS:-C01 C02 C03 C04 C05 C06 C07 C08 C09 C10 C11 C12 C13 C14 C15 C16 C17 C18 C19 C20}; do
@@ -32,4 +34,4 @@ with open(out+"/uncovered.txt","w") as f:
         for n,t in unc[k]: f.write("%5d %s\n" % (n,t))
 print("uncovered lines:", sum(len(v) for v in unc.values()), "in", len(unc), "files ->", out+"/uncovered.txt")
 PY
-cat "$out/summary.txt" | awk '{print $1, $(NF-3), $(NF-2), $(NF-1)}' | column -t | head -60
+awk '{print $1, "lines:", $(NF-5), "missed:", $(NF-4), $(NF-3)}' "$out/summary.txt" | sed 's#.*/repo/src/#src/#' | head -60
